@@ -1083,6 +1083,67 @@ def judge_opts(inp, obs, lr):
     return None
 
 
+# =====================================================================================
+# oracle: exact integer arithmetic on long words (wave 6)
+# all-integer (int64) generators, words without inverse letters: the image is the exact integer product as long as the
+# exact entries fit int64 comfortably (< 2^62); words are cut so that the largest entry lies beyond 2^53, where a silent
+# detour through float64 loses digits.  Also rho(uv) = rho(u) rho(v) exactly for a split of the word.
+# =====================================================================================
+def _imul(A, B):
+    n = len(A)
+    return [[sum(A[i][k] * B[k][j] for k in range(n)) for j in range(n)] for i in range(n)]
+
+
+def gen_intexact(rng, n):
+    for _ in range(n):
+        d = rng.choice([2, 2, 3])
+        gens = {}
+        for g in "abc"[:rng.choice([1, 2, 2, 3])]:
+            M = [[int(i == j) for j in range(d)] for i in range(d)]
+            for _k in range(rng.randint(2, 4)):          # a product of elementary matrices with non-negative entries: unimodular
+                i, j = rng.sample(range(d), 2)
+                E = [[int(r == c) for c in range(d)] for r in range(d)]
+                E[i][j] = rng.randint(1, 3)
+                M = _imul(M, E)
+            gens[g] = M
+        word, P = "", [[int(i == j) for j in range(d)] for i in range(d)]
+        for _k in range(400):
+            g = rng.choice(list(gens))
+            P2 = _imul(P, gens[g])
+            if max(abs(x) for r in P2 for x in r) >= 2 ** 62:
+                break
+            word, P = word + g, P2
+        yield {"d": d, "gens": gens, "word": word, "cut": rng.randint(0, len(word)), "dtype": rng.choice(["int64", "int64", "pyint"])}
+
+
+def run_intexact(inp):
+    rep = R.Representation()
+    for g, M in inp["gens"].items():
+        rep[g] = np.array(M, dtype=np.int64) if inp["dtype"] == "int64" else np.array(M)
+    w = inp["word"]
+    exact = [[int(i == j) for j in range(inp["d"])] for i in range(inp["d"])]
+    for ch in w:
+        exact = _imul(exact, inp["gens"][ch])
+    V = np.asarray(rep[w])
+    U1, U2 = np.asarray(rep[w[:inp["cut"]]]), np.asarray(rep[w[inp["cut"]:]])
+    E = np.asarray(rep.elements([w]))[0]
+    as_int = lambda a: [[int(x) for x in r] for r in np.asarray(a).tolist()]
+    return {"exact": [[str(x) for x in r] for r in exact], "maxbits": max(abs(x) for r in exact for x in r).bit_length(),
+            "value": [[str(x) for x in r] for r in as_int(V)], "elements": [[str(x) for x in r] for r in as_int(E)],
+            "split": [[str(x) for x in r] for r in as_int(U1 @ U2)], "kind": str(V.dtype.kind)}
+
+
+def judge_intexact(inp, obs, lr):
+    tags = {"what": "exact integer word", "dtype": inp["dtype"]}
+    if "exc" in obs:
+        return {"expected": "image of the word", "observed": obs, "tags": dict(tags, exc=obs["exc"])}
+    for k in ("value", "elements", "split"):
+        if obs[k] != obs["exact"]:
+            return {"expected": {"exact product (largest entry has %d bits)" % obs["maxbits"]: obs["exact"]}, "observed": {k: obs[k], "dtype kind": obs["kind"]},
+                    "tags": dict(tags, which=k, beyond_2_53=obs["maxbits"] > 53)}
+    return None
+
+
 CLAUSES = [
     Clause("words_corr", "corr", gen_words, run_words, judge_words, lean=lean_words, site="utils.words",
            budget={"quick": 200, "thorough": 6000},
@@ -1096,6 +1157,9 @@ CLAUSES = [
     Clause("fox_corr", "corr", gen_fox, run_fox, judge_fox, lean=lean_fox, site="Representation.differential/cocycle_matrix/coboundary_matrix",
            budget={"quick": 100, "thorough": 4500},
            what="differential (all blocks and single generator), cocycle_matrix, coboundary_matrix of random relators vs Lean model"),
+    Clause("int_exact_oracle", "oracle", gen_intexact, run_intexact, judge_intexact, site="Representation.__getitem__ / elements (integer generators)",
+           budget={"quick": 60, "thorough": 1500},
+           what="all-integer generators (int64 arrays / arrays of Python ints), words without inverse letters grown until the largest entry of the exact product lies between 2^53 and 2^62: rep[w], elements([w]) and rep[u] @ rep[v] for a split w = uv equal the exact integer product entry by entry"),
     Clause("hom_oracle", "oracle", gen_hom, run_hom, judge_hom, site="Representation.__getitem__",
            budget={"quick": 400, "thorough": 15000},
            what="rho(uv)=rho(u)rho(v), rho('')=I, inverse letters, free reduction, formal inverse, elements(); float, complex and int64 generators"),
